@@ -187,8 +187,7 @@ Definition do_event (s : state) (t : tm) : state * tm :=
                         | _ => 0%nat
                         end in
           let d := match pend_of s t0 with
-                   | IEnq sys to _ m :: _ =>
-                       let mb := fst (resolve s to) in
+                   | IEnqR sys mb _ m :: _ =>
                        TL [t_mbox s mb; tbool (match mb with MbDead => false | _ => sys end);
                            match mb with MbDead => t_msg s (MDeadLetter sys m) | _ => t_msg s m end]
                    | IEnqMb a e :: _ => TL [t_akey s a; tbool (e_sys e); t_msg s (e_msg e)]
